@@ -12,10 +12,18 @@ use crate::{
 };
 use tracing::{debug, trace, warn};
 
+#[cfg(not(feature = "verif-hooks"))]
 use instant::{Duration, Instant};
+#[cfg(feature = "verif-hooks")]
+use crate::verif_hooks::{HashMap, Instant};
+#[cfg(feature = "verif-hooks")]
+use instant::Duration;
 use std::collections::vec_deque::Drain;
 use std::collections::VecDeque;
+#[cfg(not(feature = "verif-hooks"))]
 use std::collections::{BTreeMap, HashMap};
+#[cfg(feature = "verif-hooks")]
+use std::collections::BTreeMap;
 use std::convert::TryInto;
 
 const RECOMMENDATION_INTERVAL: Frame = 60;
@@ -582,6 +590,8 @@ impl<T: Config> P2PSession<T> {
     }
 
     fn yield_lockstep_wait() {
+        #[cfg(feature = "verif-hooks")]
+        crate::verif_hooks::on_wait_yield();
         #[cfg(not(target_arch = "wasm32"))]
         std::thread::yield_now();
     }
@@ -1247,5 +1257,172 @@ impl<T: Config> P2PSession<T> {
             }
             DesyncDetection::Off => (),
         }
+    }
+}
+
+#[cfg(feature = "verif-hooks")]
+impl<T: Config> P2PSession<T> {
+    /// Per player handle: (disconnected, last frame for which an input is held).
+    pub fn verif_connect_status(&self) -> Vec<(bool, Frame)> {
+        self.local_connect_status
+            .iter()
+            .map(|c| (c.disconnected, c.last_frame))
+            .collect()
+    }
+
+    /// What each running remote endpoint last reported about every player (gossip).
+    pub fn verif_peer_connect_status(&self) -> Vec<(String, Vec<(bool, Frame)>)> {
+        let mut v: Vec<_> = self
+            .player_reg
+            .remotes
+            .iter()
+            .map(|(a, ep)| {
+                (
+                    format!("{a:?}"),
+                    (0..self.num_players)
+                        .map(|h| {
+                            let c = ep.peer_connect_status(h);
+                            (c.disconnected, c.last_frame)
+                        })
+                        .collect(),
+                )
+            })
+            .collect();
+        v.sort();
+        v
+    }
+
+    /// Sizes of every internal buffer, endpoints in ascending address order.
+    pub fn verif_buffer_sizes(&self) -> crate::verif_hooks::BufferSizes {
+        let mut endpoints: Vec<_> = self
+            .player_reg
+            .remotes
+            .values()
+            .map(|ep| ep.verif_sizes(false))
+            .chain(
+                self.player_reg
+                    .spectators
+                    .values()
+                    .map(|ep| ep.verif_sizes(true)),
+            )
+            .collect();
+        endpoints.sort_by(|a, b| (a.spectator, &a.addr).cmp(&(b.spectator, &b.addr)));
+        crate::verif_hooks::BufferSizes {
+            event_queue: self.event_queue.len(),
+            pending_local_inputs: self.pending_local_inputs.len(),
+            outgoing_local_inputs: self.outgoing_local_inputs.len(),
+            local_checksum_history: self.local_checksum_history.len(),
+            endpoints,
+        }
+    }
+
+    /// The order in which the registry maps iterate right now.
+    pub fn verif_iteration_orders(&self) -> Vec<Vec<String>> {
+        vec![
+            self.player_reg
+                .handles
+                .keys()
+                .map(|h| h.to_string())
+                .collect(),
+            self.player_reg
+                .remotes
+                .keys()
+                .map(|a| format!("{a:?}"))
+                .collect(),
+            self.player_reg
+                .spectators
+                .keys()
+                .map(|a| format!("{a:?}"))
+                .collect(),
+        ]
+    }
+
+    /// Every field that can influence future behaviour, independent of hash order.
+    pub fn verif_digest(&self, out: &mut Vec<u8>) {
+        use crate::verif_hooks::{digest_debug, digest_sorted, Digest};
+        let Self {
+            num_players,
+            max_prediction,
+            sync_layer,
+            sparse_saving,
+            disconnect_frame,
+            state,
+            fps,
+            socket: _, // owned by the harness, digested there
+            player_reg,
+            local_connect_status,
+            next_spectator_frame,
+            next_recommended_sleep,
+            frames_ahead,
+            event_queue,
+            pending_local_inputs,
+            outgoing_local_inputs,
+            last_sent_outgoing_input_frame,
+            desync_detection,
+            local_checksum_history,
+            last_sent_checksum_frame,
+        } = self;
+        num_players.digest(out);
+        max_prediction.digest(out);
+        sync_layer.verif_digest(out);
+        sparse_saving.digest(out);
+        disconnect_frame.digest(out);
+        out.push(match state {
+            SessionState::Synchronizing => 0,
+            SessionState::Running => 1,
+        });
+        fps.digest(out);
+        let PlayerRegistry {
+            handles,
+            remotes,
+            spectators,
+        } = player_reg;
+        digest_sorted(handles.iter(), out, |k, v, o| {
+            k.digest(o);
+            digest_debug(v, o);
+        });
+        for map in [remotes, spectators] {
+            let mut eps: Vec<(String, &UdpProtocol<T>)> =
+                map.iter().map(|(a, ep)| (format!("{a:?}"), ep)).collect();
+            eps.sort_by(|a, b| a.0.cmp(&b.0));
+            eps.len().digest(out);
+            for (a, ep) in eps {
+                digest_debug(&a, out);
+                ep.verif_digest(out);
+            }
+        }
+        local_connect_status.digest(out);
+        next_spectator_frame.digest(out);
+        next_recommended_sleep.digest(out);
+        frames_ahead.digest(out);
+        event_queue.len().digest(out);
+        for e in event_queue {
+            e.verif_digest(out);
+        }
+        digest_sorted(pending_local_inputs.iter(), out, |k, v, o| {
+            k.digest(o);
+            v.verif_digest(o);
+        });
+        outgoing_local_inputs.len().digest(out);
+        for (frame, inputs) in outgoing_local_inputs {
+            frame.digest(out);
+            digest_sorted(inputs.iter(), out, |k, v, o| {
+                k.digest(o);
+                v.verif_digest(o);
+            });
+        }
+        last_sent_outgoing_input_frame.digest(out);
+        match desync_detection {
+            DesyncDetection::Off => out.push(0),
+            DesyncDetection::On { interval } => {
+                out.push(1);
+                interval.digest(out);
+            }
+        }
+        digest_sorted(local_checksum_history.iter(), out, |k, v, o| {
+            k.digest(o);
+            v.digest(o);
+        });
+        last_sent_checksum_frame.digest(out);
     }
 }
